@@ -80,7 +80,6 @@ MUTANTS = {
         ("patch:own-c19-average-over-flanks",),
         ("avg-depth-guard-removed", "aldy/genotype.py", "        if avg_cov < profile.min_avg_coverage:", "        if False:"),
         ("oserror-swallowed", "aldy/sam.py", "            for read in iter:\n                if not read.cigartuples:  # only valid alignments", "            for read in _safe(iter):\n                if not read.cigartuples:  # only valid alignments"),
-        ("cn-low-depth-guard-removed", "aldy/cn.py", "        if total_cov < min_cov / 2.0:", "        if False:"),
     ],
     "C01": [
         ("patch:own-c01-insertion-phase-anchor",),
